@@ -288,6 +288,18 @@ def typed_mutation_streams(rng, tier, per_type=None, max_len=400):
             ann = f"widen={t}" if kind == "widen" else kind
             mops_.append(f"tdec {rt.name} {gen.hexb(m)} #{ann}")
             mmops.append(f"tdec {rt.desc_s} {gen.hexb(m)}")
+    # [seconds, nanoseconds] pairs no encoder writes: nanoseconds of a second and more carried into seconds at the top of their range
+    U64 = 2**64 - 1
+    for rt in registry():
+        if rt.enconly or rt.desc_s not in ("duration", "systime", "opt(duration)", "seq(duration)"):
+            continue
+        for secs in [0, 1, 2**32, 2**63 - 1, 2**63] + [U64 - k for k in range(6)]:
+            for ns in (0, 1, 999999999, 10**9, 10**9 + 1, 1999999999, 2 * 10**9, 2999999999, 3 * 10**9, 3999999999, 4 * 10**9, 2**32 - 1):
+                for doc in (b"\x82" + gen.head(0, secs) + gen.head(0, ns), b"\x9f" + gen.head(0, secs) + gen.head(0, ns, 8) + b"\xff"):
+                    if rt.desc_s == "seq(duration)":
+                        doc = b"\x82" + doc + b"\x82\x01\x02"
+                    mops_.append(f"tdec {rt.name} {gen.hexb(doc)} #carry")
+                    mmops.append(f"tdec {rt.desc_s} {gen.hexb(doc)}")
     s1 = Stream("typed-prefix", "hcore", pops, model_ops=pmops, judge=judge_prefix,
                 nontrivial=lambda op, impl: impl.startswith("err eoi"),
                 rule="tdec <type> <strict prefix of a valid encoding of a value of that type>: must be `err eoi`")
